@@ -642,3 +642,86 @@ package values
 //@ ensures leftMissing: a == nil && b != nil ==> result == s.nilFirst
 //@ ensures rightMissing: a != nil && b == nil ==> result == !s.nilFirst
 //@ ensures ordered: a != nil && b != nil ==> result == values.Less(a, b)
+
+// ---- ordered YAML maps (yaml.MapSlice) ------------------------------------------------
+// A key is found by ==; an index that == cannot compare (a slice, a map) matches no key.
+//@ func values.isKey
+//@ props C01 C18
+//@ panics nothing
+//@ assigns nothing
+//@ ensures def: result == (e == k && (e == nil || tcomparable(typeof(e))))
+
+//@ func (values.mapSliceValue).Contains
+//@ props C01 C18
+//@ panics nothing
+//@ requires arg: elem != nil
+//@ assigns nothing
+
+//@ func (values.mapSliceValue).IndexValue
+//@ props C01 C18
+//@ panics nothing
+//@ requires arg: index != nil
+//@ assigns alloc F$values.dropWrapper$d, alloc F$values.dropWrapper$v, alloc F$values.dropWrapper$Once
+//@ ensures nonnil: result != nil
+//@ ensures drops: invkept(values.dropWrapper)
+
+//@ func (values.mapSliceValue).PropertyValue
+//@ props C01 C18
+//@ panics nothing
+//@ requires arg: index != nil
+//@ assigns alloc F$values.dropWrapper$d, alloc F$values.dropWrapper$v, alloc F$values.dropWrapper$Once
+//@ ensures nonnil: result != nil
+
+// ---- structs (C01, C18): fields and getter methods by name ----------------------------------
+// ValueOf wraps a struct, or a non-nil pointer to a struct, in structValue.
+//@ define stype(v Val) Int = ite(kind(v) == reflect.Ptr, telem(typeof(v)), typeof(v))
+//@ typeinv values.structValue: self.wrapperValue.value != nil && (kind(self.wrapperValue.value) == reflect.Struct || (kind(self.wrapperValue.value) == reflect.Ptr && pl_ptr(self.wrapperValue.value) != 0 && kindof(telem(typeof(self.wrapperValue.value))) == reflect.Struct))
+//@ globalinv values.errorType: self == telem(tid(*error)) && self != 0
+
+// only exported fields are found (the value of an unexported field cannot be read)
+//@ func (values.structValue).findField
+//@ props C01 C18
+//@ panics nothing
+//@ assigns alloc *
+//@ loop 1 invariant idx: 0 <= i && n == tnumfield(stype(sv.wrapperValue.value))
+//@ ensures found: result1 ==> result0 != nil && tfield(stype(sv.wrapperValue.value), result0.Name) && texported(stype(sv.wrapperValue.value), result0.Name)
+
+// A getter - a method or func-typed field of a bound struct that has the shape func() T or
+// func() (T, error) - is code of the embedding program, run through reflect.Value.Call. It is
+// outside the contracts (C01 speaks of structs with data fields): an error it returns is
+// re-raised as is (`panics any`), and it is ASSUMED (assumes-impl / assumes-post, listed in
+// evidence) to leave the interpreter's own objects alone, as filters called through
+// reflection are. What IS proved: no other signature is ever called, no result is indexed
+// that does not exist, IsNil is asked only of an error-typed result, and only exported fields
+// are read.
+//@ func (values.structValue).invoke
+//@ props C01 C18
+//@ panics any
+//@ requires fn: rv_valid(fv) && !rv_iface(fv) && rv_val(fv) != nil && kind(rv_val(fv)) == reflect.Func
+//@ assigns *
+//@ ensures nonnil: result != nil
+//@ assumes-post drops: invkept(values.dropWrapper)
+
+//@ func (values.structValue).PropertyValue
+//@ props C01 C18
+//@ panics any
+//@ assumes-impl a struct getter called through reflection changes no object of the interpreter and its error result, re-raised as is, is outside C01 (data fields only)
+//@ requires arg: index != nil
+//@ assigns *
+//@ ensures nonnil: result != nil
+//@ ensures drops: invkept(values.dropWrapper)
+
+//@ func (values.structValue).IndexValue
+//@ props C01 C18
+//@ panics any
+//@ assumes-impl a struct getter called through reflection changes no object of the interpreter and its error result, re-raised as is, is outside C01 (data fields only)
+//@ requires arg: index != nil
+//@ assigns *
+//@ ensures nonnil: result != nil
+//@ ensures drops: invkept(values.dropWrapper)
+
+//@ func (values.structValue).Contains
+//@ props C01 C18
+//@ panics nothing
+//@ requires arg: elem != nil
+//@ assigns alloc *
